@@ -304,6 +304,13 @@ example (n : ℕ) (h : ℕ → ℕ → ℂ) (C : ℕ → Arr.Vc) (x : Fin 1 → 
 open Scico.Jaxpr.Arr in
 example (n : ℕ) (h : ℕ → ℕ → ℂ) : run (arrInterp (demoTable n h) (fun _ _ => 1)) affArrProg 0 ≠ 0 := affArrProg_zero n h
 
+-- the map the driver runs at Float against the JAX primitives (harness/jaxpr_family.py, stream 8) is, at ℂ, the map
+-- proved jointly linear for every descriptor
+example (T : Arr.LinDesc) (xs : List Arr.Vc) : Arr.applyDesc T xs = applyDescG T xs := rfl
+example (T : Arr.LinDesc) (c : ℂ) (xs ys : List Arr.Vc) (h : xs.length = ys.length) :
+    applyDescG T (ladd xs ys) = applyDescG T xs + applyDescG T ys ∧ applyDescG T (lsmul c xs) = c • applyDescG T xs :=
+  ⟨Arr.applyDesc_add T xs ys h, Arr.applyDesc_smul T c xs⟩
+
 -- the calculus: with f = (2·), g = (3·), h = (5·) on ℂ¹ the four derived maps are linear (hypotheses satisfiable)
 example : IsLinearMap ℂ (fun x : Fin 1 → ℂ => star ((2 : ℂ) • star x)) :=
   (C06_derived_linear (fun x : Fin 1 → ℂ => (2 : ℂ) • x) (fun x => (3 : ℂ) • x) (fun x : Fin 1 → ℂ => (5 : ℂ) • x) 7
